@@ -30,6 +30,7 @@ type Config struct {
 	SchedExplore  bool              `json:"sched_explore"`
 	PreemptSync   bool              `json:"preempt_sync"`
 	SelectExplore bool              `json:"select_explore"`
+	MaxPreempt    int               `json:"max_preemptions"`
 	Replace       map[string]string `json:"replace"`
 	Seed          int64             `json:"seed"`
 	Out           string            `json:"out"`
@@ -58,6 +59,7 @@ type HarnessOpts struct {
 	SchedExplore *bool `json:"sched_explore"`
 	PreemptSync  *bool `json:"preempt_sync"`
 	MaxPaths     int   `json:"max_paths"`
+	MaxPreempt   int   `json:"max_preemptions"`
 }
 
 type HarnessResult struct {
@@ -111,6 +113,9 @@ func explore(prog *ssa.Program, pkg *ssa.Package, cfg *Config, hname string) *Ha
 		}
 		if o.MaxPaths > 0 {
 			hcfg.MaxPaths = o.MaxPaths
+		}
+		if o.MaxPreempt > 0 {
+			hcfg.MaxPreempt = o.MaxPreempt
 		}
 	}
 	t0 := time.Now()
